@@ -64,7 +64,7 @@ pub fn designs() -> Vec<Design> {
         d("p1_n12_4levels_x3", col(&[0, 0, 0, 1, 1, 1, 2, 2, 2, 3, 3, 3]), Skip, Cross),
         // ---- p = 2, full factorial
         d("p2_n4_ff2x2", full_factorial(&[2, 2], 1), Skip, PerColumn),
-        d("p2_n6_ff2x3", full_factorial(&[2, 3], 1), PerColumn, PerColumn),
+        d("p2_n6_ff2x3", full_factorial(&[2, 3], 1), PerColumn, Cross),
         d("p2_n9_ff3x3", full_factorial(&[3, 3], 1), Skip, PerColumn),
         d("p2_n12_ff3x4", full_factorial(&[3, 4], 1), Skip, Same),
         d("p2_n12_ff2x2_x3", full_factorial(&[2, 2], 3), Skip, Same),
